@@ -1,1 +1,314 @@
-// placeholder
+// C08: SpawnTask deep-copies every capture into the new task (channels stay shared).
+// C09: channel arms, one step each, plus the "writer goes away" history.
+
+pub(super) fn struct_ref<'a>(v: Value) -> &'a StructObject {
+    unsafe { &*(v.0 as *const StructObject) }
+}
+pub(super) fn enum_ref<'a>(v: Value) -> &'a EnumObject {
+    unsafe { &*(v.0 as *const EnumObject) }
+}
+pub(super) fn string_ref<'a>(v: Value) -> &'a StringObject {
+    unsafe { &*(v.0 as *const StringObject) }
+}
+pub(super) fn in_heap(t: &VmGreenThread, v: Value) -> bool {
+    let mut k = 0;
+    while k < t.heap_list.len() {
+        if t.heap_list[k] as u64 == v.0 {
+            return true;
+        }
+        k += 1;
+    }
+    false
+}
+
+// Runs SpawnTask(1, 9) with `cap` as the only capture and returns the spawned thread.
+pub(super) fn spawn_with_capture(t: &mut VmGreenThread, cap: Value) -> Box<VmGreenThread> {
+    push_frame(t, ValueTag::Int);
+    let frame = t.value_stack.clone();
+    t.value_stack.push(cap);
+    unsafe { SENT_COUNT = 0; }
+    t.pc.0 = 0;
+    let cont = t.step();
+    assert!(cont && t.error.is_none() && t.pc.0 == 1, "spawning continues the spawner");
+    assert!(same_stack(&t.value_stack, &frame), "captures are consumed from the spawner's stack");
+    assert!(unsafe { SENT_COUNT } == 1, "exactly one new thread handed to the scheduler");
+    let nt = take_sent_thread();
+    assert!(nt.pc.0 == 9 && nt.stack_base == 0 && nt.value_stack.len() == 1, "task starts at its code with the captures as its stack");
+    assert!(!nt.is_main && !nt.done && nt.error.is_none() && nt.pending_host_func.is_none());
+    nt
+}
+pub(super) fn spawn_prog() -> Vec<Instr> {
+    vec![Instr::SpawnTask(1, ProgramCounter(9)), Instr::Stop]
+}
+
+vm_harness! {
+    #[kani::unwind(9)]
+    fn c08_capture_scalar() {
+        let mut t = mk_thread(spawn_prog(), vec![], vec![]);
+        let k: u8 = kani::any();
+        let cap = match k % 3 { 0 => sym_val(ValueTag::Int), 1 => sym_val(ValueTag::Float), _ => sym_val(ValueTag::Bool) };
+        let nt = spawn_with_capture(&mut t, cap);
+        assert!(nt.value_stack[0].0 == cap.0 && nt.value_stack[0].1 == cap.1, "scalars are copied by value");
+        assert!(nt.heap_list.len() == 0);
+        kani::cover!(true, "req: reachable");
+        std::mem::forget(t); std::mem::forget(nt);
+    }
+}
+vm_harness! {
+    #[kani::unwind(9)]
+    fn c08_capture_string() {
+        let mut t = mk_thread(spawn_prog(), vec![], vec![]);
+        let b = sym_ascii3();
+        let len: usize = kani::any();
+        kani::assume(len <= 2);
+        let cap = mk_string(&mut t, b, len);
+        let nt = spawn_with_capture(&mut t, cap);
+        let c = nt.value_stack[0];
+        assert!(c.1 == ValueTag::String && c.0 != cap.0, "a fresh string object");
+        assert!(in_heap(&nt, c) && !in_heap(&t, c), "owned by the task's heap");
+        let s = string_ref(c).str.as_bytes();
+        assert!(s.len() == len && (len < 1 || s[0] == b[0]) && (len < 2 || s[1] == b[1]), "equal contents");
+        kani::cover!(len == 2, "req: two bytes");
+        std::mem::forget(t); std::mem::forget(nt);
+    }
+}
+vm_harness! {
+    #[kani::unwind(9)]
+    fn c08_capture_array_of_ints() {
+        let mut t = mk_thread(spawn_prog(), vec![], vec![]);
+        let (cap, e) = fixed_array(&mut t, 2, 4);
+        let nt = spawn_with_capture(&mut t, cap);
+        let c = nt.value_stack[0];
+        assert!(c.1 == ValueTag::Array && c.0 != cap.0, "a fresh array object");
+        assert!(in_heap(&nt, c), "owned by the task's heap");
+        let d = &arr_ref(c).data;
+        assert!(d.len() == 2 && d[0].0 == e[0] && d[1].0 == e[1] && d[0].1 == ValueTag::Int && d[1].1 == ValueTag::Int, "equal elements");
+        // independence: mutate the original through the real SetIndex-like write, the copy is unaffected
+        unsafe { (&mut *(cap.0 as *mut ArrayObject)).data[0] = Value::from(!(e[0] as i64)); }
+        assert!(arr_ref(c).data[0].0 == e[0], "mutation of the original is invisible in the task");
+        kani::cover!(true, "req: reachable");
+        std::mem::forget(t); std::mem::forget(nt);
+    }
+}
+vm_harness! {
+    #[kani::unwind(9)]
+    fn c08_capture_empty_array() {
+        let mut t = mk_thread(spawn_prog(), vec![], vec![]);
+        let (cap, _e) = fixed_array(&mut t, 0, 0);
+        let nt = spawn_with_capture(&mut t, cap);
+        let c = nt.value_stack[0];
+        assert!(c.1 == ValueTag::Array && c.0 != cap.0 && arr_ref(c).data.len() == 0);
+        kani::cover!(true, "req: reachable");
+        std::mem::forget(t); std::mem::forget(nt);
+    }
+}
+vm_harness! {
+    #[kani::unwind(9)]
+    fn c08_capture_array_of_strings() {
+        let mut t = mk_thread(spawn_prog(), vec![], vec![]);
+        let b = sym_ascii3();
+        let s0 = mk_string(&mut t, b, 1);
+        let cap = Value::from(ArrayObject::new(vec![s0], &mut t));
+        let nt = spawn_with_capture(&mut t, cap);
+        let c = nt.value_stack[0];
+        assert!(c.1 == ValueTag::Array && c.0 != cap.0);
+        let d = &arr_ref(c).data;
+        assert!(d.len() == 1 && d[0].1 == ValueTag::String && d[0].0 != s0.0, "nested string copied, not shared");
+        assert!(in_heap(&nt, d[0]) && in_heap(&nt, c) && nt.heap_list.len() == 2);
+        assert!(string_ref(d[0]).str.as_bytes()[0] == b[0]);
+        kani::cover!(true, "req: reachable");
+        std::mem::forget(t); std::mem::forget(nt);
+    }
+}
+vm_harness! {
+    #[kani::unwind(9)]
+    fn c08_capture_struct_with_array() {
+        let mut t = mk_thread(spawn_prog(), vec![], vec![]);
+        let a: u64 = kani::any();
+        let (arr, e) = fixed_array(&mut t, 1, 4);
+        let cap = Value::from(StructObject::new(vec![Value(a, ValueTag::Int), arr], &mut t));
+        let nt = spawn_with_capture(&mut t, cap);
+        let c = nt.value_stack[0];
+        assert!(c.1 == ValueTag::Struct && c.0 != cap.0 && in_heap(&nt, c));
+        let f = struct_ref(c).get_fields();
+        assert!(f.len() == 2 && f[0].0 == a && f[0].1 == ValueTag::Int);
+        assert!(f[1].1 == ValueTag::Array && f[1].0 != arr.0 && in_heap(&nt, f[1]), "nested array copied into the task's heap");
+        assert!(arr_ref(f[1]).data.len() == 1 && arr_ref(f[1]).data[0].0 == e[0]);
+        kani::cover!(true, "req: reachable");
+        std::mem::forget(t); std::mem::forget(nt);
+    }
+}
+vm_harness! {
+    #[kani::unwind(9)]
+    fn c08_capture_variant_and_closure() {
+        let mut t = mk_thread(spawn_prog(), vec![], vec![]);
+        let tag: u16 = kani::any();
+        let x: u64 = kani::any();
+        // closure = struct [code address, captured int]; wrapped in a variant
+        let clo = Value::from(StructObject::new(vec![Value(33, ValueTag::Addr), Value(x, ValueTag::Int)], &mut t));
+        let cap = Value::from(EnumObject::new(tag, clo, &mut t));
+        let nt = spawn_with_capture(&mut t, cap);
+        let c = nt.value_stack[0];
+        assert!(c.1 == ValueTag::Variant && c.0 != cap.0 && in_heap(&nt, c));
+        let v = enum_ref(c);
+        assert!(v.tag == tag, "variant tag preserved");
+        assert!(v.val.1 == ValueTag::Struct && v.val.0 != clo.0 && in_heap(&nt, v.val), "payload copied");
+        let f = struct_ref(v.val).get_fields();
+        assert!(f.len() == 2 && f[0].1 == ValueTag::Addr && f[0].0 == 33 && f[1].0 == x && f[1].1 == ValueTag::Int, "closure code and capture preserved");
+        kani::cover!(true, "req: reachable");
+        std::mem::forget(t); std::mem::forget(nt);
+    }
+}
+vm_harness! {
+    #[kani::unwind(9)]
+    fn c08_capture_channel_is_shared() {
+        let mut t = mk_thread(spawn_prog(), vec![], vec![]);
+        let ch = ChannelObject::new(&mut t);
+        let cap = Value::from(ch);
+        let nt = spawn_with_capture(&mut t, cap);
+        let c = nt.value_stack[0];
+        assert!(c.1 == ValueTag::Channel && c.0 != cap.0 && in_heap(&nt, c), "a channel handle owned by the task");
+        let orig = unsafe { &*(cap.0 as *const ChannelObject) };
+        let copy = unsafe { &*(c.0 as *const ChannelObject) };
+        assert!(Arc::ptr_eq(&orig.data, &copy.data), "both handles refer to the same channel");
+        kani::cover!(true, "req: reachable");
+        std::mem::forget(t); std::mem::forget(nt);
+    }
+}
+
+// -------------------------------------------------------------------- C09
+pub(super) fn chan_prog() -> Vec<Instr> {
+    vec![Instr::ChannelWrite, Instr::ChannelRead, Instr::Stop]
+}
+pub(super) fn chan_ref<'a>(v: Value) -> &'a ChannelObject {
+    unsafe { &*(v.0 as *const ChannelObject) }
+}
+
+vm_harness! {
+    #[kani::unwind(9)]
+    fn c09_write_appends() {
+        let mut t = mk_thread(chan_prog(), vec![], vec![]);
+        let ch = Value::from(ChannelObject::new(&mut t));
+        let n: usize = kani::any();
+        kani::assume(n <= 2);
+        let q: [u64; 2] = kani::any();
+        if n > 0 { chan_ref(ch).write_value(Value(q[0], ValueTag::Int)); }
+        if n > 1 { chan_ref(ch).write_value(Value(q[1], ValueTag::Int)); }
+        push_frame(&mut t, ValueTag::Int);
+        let frame = t.value_stack.clone();
+        let v = sym_val(ValueTag::Int);
+        t.value_stack.push(ch);
+        t.value_stack.push(v);
+        t.pc.0 = 0;
+        let cont = t.step();
+        assert!(cont && t.error.is_none() && t.pc.0 == 1, "a write never blocks");
+        assert!(same_stack(&t.value_stack, &frame), "channel and value consumed");
+        let data = chan_ref(ch).data.lock().unwrap();
+        assert!(data.len() == n + 1, "exactly one element appended");
+        assert!(data[n].0 == v.0 && data[n].1 == v.1, "the written value is last");
+        assert!(n < 1 || data[0].0 == q[0], "earlier elements keep their order");
+        assert!(n < 2 || data[1].0 == q[1], "earlier elements keep their order");
+        kani::cover!(n == 2, "req: queue of two");
+        drop(data);
+        std::mem::forget(t);
+    }
+}
+vm_harness! {
+    #[kani::unwind(9)]
+    fn c09_read_takes_front() {
+        let mut w = mk_thread(chan_prog(), vec![], vec![]);
+        let mut r = mk_thread(chan_prog(), vec![], vec![]);
+        let chw = Value::from(ChannelObject::new(&mut w));
+        let chr = chan_ref(chw).copy(&mut r);
+        let q: [u64; 2] = kani::any();
+        let n: usize = kani::any();
+        kani::assume(n >= 1 && n <= 2);
+        chan_ref(chw).write_value(Value(q[0], ValueTag::Int));
+        if n > 1 { chan_ref(chw).write_value(Value(q[1], ValueTag::Float)); }
+        push_frame(&mut r, ValueTag::Int);
+        let frame = r.value_stack.clone();
+        r.value_stack.push(chr);
+        r.pc.0 = 1;
+        let cont = r.step();
+        assert!(cont && r.error.is_none() && r.pc.0 == 2, "a read on a non-empty channel completes");
+        let mut model = frame.clone();
+        model.push(Value(q[0], ValueTag::Int));
+        assert!(same_stack(&r.value_stack, &model), "the FRONT element is received");
+        let data = chan_ref(chw).data.lock().unwrap();
+        assert!(data.len() == n - 1, "exactly that element was removed");
+        assert!(n < 2 || (data[0].0 == q[1] && data[0].1 == ValueTag::Float), "the rest keeps its order");
+        kani::cover!(n == 2, "req: queue of two");
+        drop(data);
+        std::mem::forget(w); std::mem::forget(r);
+    }
+}
+vm_harness! {
+    #[kani::unwind(9)]
+    fn c09_read_empty_blocks_only_reader() {
+        let mut r = mk_thread(chan_prog(), vec![], vec![]);
+        let ch = Value::from(ChannelObject::new(&mut r));
+        push_frame(&mut r, ValueTag::Int);
+        r.value_stack.push(ch);
+        let before = r.value_stack.clone();
+        r.pc.0 = 1;
+        let cont = r.step();
+        assert!(cont && r.error.is_none(), "an empty channel is not an error");
+        assert!(r.pc.0 == 1, "the read is retried later (pc rewound)");
+        assert!(same_stack(&r.value_stack, &before), "stack unchanged while waiting");
+        assert!(r.can_run() && !r.done, "the reader stays runnable; nothing else is touched");
+        kani::cover!(true, "req: reachable");
+        std::mem::forget(r);
+    }
+}
+vm_harness! {
+    #[kani::unwind(9)]
+    fn c09_read_copies_heap_value_into_reader() {
+        let mut w = mk_thread(chan_prog(), vec![], vec![]);
+        let mut r = mk_thread(chan_prog(), vec![], vec![]);
+        let chw = Value::from(ChannelObject::new(&mut w));
+        let chr = chan_ref(chw).copy(&mut r);
+        let b = sym_ascii3();
+        let s = mk_string(&mut w, b, 2);
+        // real write
+        w.value_stack.push(chw);
+        w.value_stack.push(s);
+        w.pc.0 = 0;
+        assert!(w.step());
+        // real read while the writer is alive
+        r.value_stack.push(chr);
+        r.pc.0 = 1;
+        assert!(r.step() && r.pc.0 == 2);
+        let got = r.value_stack[0];
+        assert!(got.1 == ValueTag::String && got.0 != s.0 && in_heap(&r, got), "an independent copy in the reader's heap");
+        let bytes = string_ref(got).str.as_bytes();
+        assert!(bytes.len() == 2 && bytes[0] == b[0] && bytes[1] == b[1], "contents equal what was written");
+        kani::cover!(true, "req: reachable");
+        std::mem::forget(w); std::mem::forget(r);
+    }
+}
+vm_harness! {
+    #[kani::unwind(9)]
+    fn c09_value_survives_writer_drop() {
+        // history: writer allocates a string, writes it, finishes and is dropped; then the reader reads.
+        let mut w = mk_thread(chan_prog(), vec![], vec![]);
+        let mut r = mk_thread(chan_prog(), vec![], vec![]);
+        let chw = Value::from(ChannelObject::new(&mut w));
+        let chr = chan_ref(chw).copy(&mut r);
+        let b = sym_ascii3();
+        let s = mk_string(&mut w, b, 2);
+        w.value_stack.push(chw);
+        w.value_stack.push(s);
+        w.pc.0 = 0;
+        assert!(w.step());
+        drop(w); // real Drop for VmGreenThread frees the writer's heap
+        r.value_stack.push(chr);
+        r.pc.0 = 1;
+        assert!(r.step() && r.pc.0 == 2);
+        let got = r.value_stack[0];
+        assert!(got.1 == ValueTag::String);
+        let bytes = string_ref(got).str.as_bytes();
+        assert!(bytes.len() == 2 && bytes[0] == b[0] && bytes[1] == b[1], "received value equals what was written, after the writer is gone");
+        kani::cover!(true, "req: reachable");
+        std::mem::forget(r);
+    }
+}
